@@ -513,6 +513,10 @@ def d3_ok_follows_grade(ctx, idx):
                 if 'ok' in keys and 'grade_decimal' in keys:
                     okv = nf.const_value(e.values[keys.index('ok')], '?')
                     gv = nf.const_value(e.values[keys.index('grade_decimal')], '?')
+                    if isinstance(e.values[keys.index('ok')], ast.Name) and isinstance(e.values[keys.index('grade_decimal')], ast.Name):
+                        # the record is filled from values computed elsewhere (a helper's result): not decided here
+                        r.undecided(construct, 'the standardised record is built from computed values (`%s`), not from constants' % short(e), sc.loc)
+                        continue
                     good = (okv is okw or (okv == okw and type(okv) is type(okw))) and gv in gw and not isinstance(gv, bool)
             r.check(good, construct, 'returns (%r, %s)' % (okw, gw[0]),
                     'a comparer verdict of %s is standardised to `%s` instead of ok=%r with grade %s' % (label, short(e) if e is not None else chosen.leaf.kind, okw, gw[0]),
